@@ -282,3 +282,67 @@ def all_parent_vectors(n_nodes):
     for i in range(1, n_nodes):
         out = [v + [p] for v in out for p in range(i)]
     return out
+
+
+# ------------------------------------------------------------------------------------------
+# bipartition oracle (first principles: OR of the taxon bits below an edge)
+
+
+def lowest_bit(x):
+    b = 1
+    while b <= x:
+        if x & b:
+            return b
+        b <<= 1
+    return 0
+
+
+def leafset_mask(nd, tns):
+    m = 0
+    stack = [nd]
+    while stack:
+        x = stack.pop()
+        if not x._child_nodes:
+            if x.taxon is not None:
+                m |= tns.taxon_bitmask(x.taxon)
+        else:
+            stack.extend(x._child_nodes)
+    return m
+
+
+def expected_split(leafset, tree_leafset, rooted):
+    if rooted:
+        return leafset
+    lb = lowest_bit(tree_leafset)
+    if leafset & lb:
+        return (~leafset) & tree_leafset
+    return leafset
+
+
+def check_encoding_current(tree):
+    """The tree's edges and tree.bipartition_encoding carry exactly what a fresh encoding of the
+    present structure would produce.  Returns None or a failure label."""
+    tns = tree.taxon_namespace
+    nodes = reachable(tree)
+    full = leafset_mask(tree.seed_node, tns)
+    rooted = True if tree.is_rooted else False
+    enc = tree.bipartition_encoding
+    if enc is None:
+        return "enc:encoding-list-missing"
+    bip_ids = []
+    for nd in nodes:
+        b = nd._edge._bipartition
+        if b is None:
+            return "enc:edge-without-bipartition"
+        ls = leafset_mask(nd, tns)
+        if b._leafset_bitmask != ls:
+            return "enc:stale-leafset-bitmask"
+        if b._split_bitmask != expected_split(ls, full, rooted):
+            return "enc:stale-split-bitmask"
+        bip_ids.append(id(b))
+    enc_ids = [id(b) for b in enc]
+    if len(set(enc_ids)) != len(enc_ids):
+        return "enc:duplicate-in-encoding-list"
+    if sorted(enc_ids) != sorted(bip_ids):
+        return "enc:encoding-list-differs-from-edges"
+    return None
